@@ -58,7 +58,7 @@ GeodeticCoordinates ECEFConverter::toWGS84(const Eigen::Vector3d & ecefPosition)
 
   // Compute longitude
   const double norm = sqrt(X * X + Y * Y);
-  double longitude = 2.0 * atan(Y / (X + norm));
+  double longitude = atan2(Y, X);
 
   // Compute latitude
   double latitude =
